@@ -325,6 +325,24 @@ func judge(tp *Tape, base time.Time, skew time.Duration, all []rec, res *core.Re
 			}
 		}
 	}
+	for _, t := range tp.Tasks {
+		if t.Sched.Mode != "min" && t.Sched.Mode != "" {
+			res.Faults["seeded-delays-at-lock-boundaries("+t.Sched.Mode+")"]++
+		}
+		for _, o := range t.Ops {
+			switch {
+			case o.Op == "clear":
+				res.Faults["explicit-clean-up"]++
+			case o.ThinkNs > skewNs:
+				res.Faults["clock-advanced-beyond-a-skew-period"]++
+			}
+		}
+	}
+	for _, rs := range byID {
+		if len(rs) > 1 {
+			res.Faults["replayed-authenticator"] += len(rs) - 1
+		}
+	}
 	res.Class = fmt.Sprintf("%s|%s|%d|%s|%s", tp.Shape, tp.Path, tp.SkewS, "{I}", strings.Join(outcome, ""))
 	res.Stats["presentations"] = int64(len(outcome))
 }
